@@ -42,7 +42,7 @@ fn cfg() -> FolCfg {
         num_hi: 2,
         depth: 5,
         max_guards: 2,
-        term_depth: 1,
+        term_depth: 2,
     }
 }
 
@@ -123,7 +123,7 @@ impl Check for C05 {
             .boxed()
     }
     fn rule(&self) -> String {
-        "random formula (all connectives, three sorts, predicates p, hp, tp, q, s, hs so that copies of different predicates could collide) x random H subset-of T x assignment; oracle: HT satisfaction (window-relativised Kripke semantics) == classical satisfaction of gamma(F) in I_{H,T}; non-trivial = formula has a negation or implication-like connective above an atom and H != T; distinct by formula text + interpretation".into()
+        "random formula (all connectives, three sorts, predicates p, hp, tp, q, s, hs so that copies of different predicates could collide) x random H subset-of T x assignment; oracle: HT satisfaction (window-relativised Kripke semantics) == classical satisfaction of gamma(F) in I_{H,T}, and the printed gamma(F) (what `translate --with gamma` shows, integer terms nested two deep) reads back as the tree gamma(F); non-trivial = formula has a negation or implication-like connective above an atom and H != T; distinct by formula text + interpretation".into()
     }
     fn exhaustive(&self, _tier: Tier) -> Vec<Case> {
         // every propositional formula of depth <= 2 over the atoms s, hs and the constants
@@ -211,6 +211,21 @@ impl Check for C05 {
                 "free-variables",
                 format!("C05: gamma changed the free variables\n  F: {}\n  gamma(F): {gam}", case.f),
             );
+        }
+        // what `translate --with gamma` hands to the user is the printed formula: it has to denote gamma(F)
+        match gam.to_string().parse::<fol::Formula>() {
+            Ok(back) if back == gam => {}
+            other => {
+                return Outcome::fail(
+                    "printed-gamma-differs",
+                    format!(
+                        "C05: the printed gamma(F) does not read back as gamma(F)\n  F: {}\n  gamma(F), own printer: {}\n  gamma(F), as printed: {gam}\n  read back: {}",
+                        safe_print::formula(&case.f, &Style::plain()),
+                        safe_print::formula(&gam, &Style::plain()),
+                        other.map(|f| safe_print::formula(&f, &Style::plain())).unwrap_or_else(|e| format!("rejected: {e}"))
+                    ),
+                );
+            }
         }
 
         let ev_ht = Ev::ht(&h, &t, &window, false).with_budget(400_000);
